@@ -20,12 +20,21 @@ type c12Case struct {
 	shadow    string // predicate context: name of the pattern's capture ("" = cap)
 	emptyPat  bool   // predicate context: the pattern matches the empty string (match == '', matchLength == 0)
 	noPat     bool   // predicate context: the pattern in front of begin is the empty group, or nothing at all
+	nest      int    // the definition is the inner command of this many `set mK to matches` commands
 }
 
 func c12Source(cs *c12Case, full bool) string {
 	body := proc.RenderStmts(cs.stmts, full)
+	// a definition written as the inner command of `set m to matches <command>` is a definition all the same
+	nest := ""
+	for k := 0; k < cs.nest; k++ {
+		nest += fmt.Sprintf("set m%d to matches ", k)
+	}
 	if cs.transform {
-		return "set f to transform " + body + " end\nreplace all ('7' = cap) with f"
+		return nest + "set f to transform " + body + " end\nreplace all ('7' = cap) with f"
+	}
+	if cs.nest > 0 {
+		return nest + "set p to pattern ('7' = cap) begin " + body + " end\nfind all p"
 	}
 	pat := "('7' = cap)"
 	if cs.noPat {
@@ -183,7 +192,7 @@ func C12(r *drv.Run) {
 		nrand = 600000
 	}
 	nl := len(c11Leaves()) + 1 // + matchNumber
-	r.Rule = fmt.Sprintf("verdicts given while other goroutines compile (eighteen goroutines compiling five ill-typed and three well-typed sources whose verdict hangs on where a loop or branch ends, next to six compiling transforms with loop bodies of 6 000 statements): each equals the verdict of the source alone; names the PATTERN binds read by transforms that never assign them (a capture, a capture only some matches bind, a named loop - a map, not a text -, a named loop holding a capture or inside a subroutine, no binding at all) through twelve kinds of string operation: accepted, no run-time failure, and the value the reference interpreter computes; exhaustive: all %d expressions of depth <= 1 (3 unary x %d leaves + 13 binary x %d x %d leaves, well and ill typed)", 3*nl+13*nl*nl, nl, nl, nl) + " in nine statement contexts (transform return, predicate return, if condition, set, debug, predicate return under a pattern whose capture is named after a built-in or a variable of the code, predicate return and debug under a pattern that matched the empty string: match is the empty string and matchLength the number 0; predicate return behind the empty group or behind no pattern at all); all statement skeletons of nesting depth <= 3 built from loop / if / if-else / ill-typed if around break, continue, return string|number|bool, debug, set, including a statement placed after a nested loop or if (compile only); seeded random statement lists (set, if/else, loop with break/continue, return, debug) over random expression trees of depth <= 2, in predicate and transform context, every variable initialised once with the type its name stands for; pairs of functions in one source where the second reads names only the first assigned (no checker state may leak from one function into the next); and, run: two transforms in ONE replacement where the first assigns a name a string / number / boolean and the second applies every operator that is well typed for an unassigned (string) name to it - each function is typed on its own, so it must also run on its own. Long definitions: one transform or predicate of 10 .. 12 000 (thorough 30 000) flat statements in four shapes (lookup table, assignments, debug lines, + chains), with and without one ill-typed statement at the very end. Oracle: type checker transcribed from the documented tables decides accept/reject; accepted single-typed terminating programs are run and must not raise an evaluator panic. Distinct by source text; non-trivial = verdicts agreed on a distinct program (both accepted and rejected programs are required)."
+	r.Rule = fmt.Sprintf("two more statement contexts: the definition written as the inner command of one or two `set m to matches` commands; verdicts given while other goroutines compile (eighteen goroutines compiling five ill-typed and three well-typed sources whose verdict hangs on where a loop or branch ends, next to six compiling transforms with loop bodies of 6 000 statements): each equals the verdict of the source alone; names the PATTERN binds read by transforms that never assign them (a capture, a capture only some matches bind, a named loop - a map, not a text -, a named loop holding a capture or inside a subroutine, no binding at all) through twelve kinds of string operation: accepted, no run-time failure, and the value the reference interpreter computes; exhaustive: all %d expressions of depth <= 1 (3 unary x %d leaves + 13 binary x %d x %d leaves, well and ill typed)", 3*nl+13*nl*nl, nl, nl, nl) + " in nine statement contexts (transform return, predicate return, if condition, set, debug, predicate return under a pattern whose capture is named after a built-in or a variable of the code, predicate return and debug under a pattern that matched the empty string: match is the empty string and matchLength the number 0; predicate return behind the empty group or behind no pattern at all); all statement skeletons of nesting depth <= 3 built from loop / if / if-else / ill-typed if around break, continue, return string|number|bool, debug, set, including a statement placed after a nested loop or if (compile only); seeded random statement lists (set, if/else, loop with break/continue, return, debug) over random expression trees of depth <= 2, in predicate and transform context, every variable initialised once with the type its name stands for; pairs of functions in one source where the second reads names only the first assigned (no checker state may leak from one function into the next); and, run: two transforms in ONE replacement where the first assigns a name a string / number / boolean and the second applies every operator that is well typed for an unassigned (string) name to it - each function is typed on its own, so it must also run on its own. Long definitions: one transform or predicate of 10 .. 12 000 (thorough 30 000) flat statements in four shapes (lookup table, assignments, debug lines, + chains), with and without one ill-typed statement at the very end. Oracle: type checker transcribed from the documented tables decides accept/reject; accepted single-typed terminating programs are run and must not raise an evaluator panic. Distinct by source text; non-trivial = verdicts agreed on a distinct program (both accepted and rejected programs are required)."
 	r.Assumptions = []string{
 		"typing of variables: latest assignment in program order, unassigned names are strings (what the documentation's inference amounts to for single-typed variables)",
 		"integer division by zero at run time is not an undefined *typing* operation (known finding K1 under C09) and is ignored here",
@@ -209,7 +218,7 @@ func C12(r *drv.Run) {
 		proc.SSet{Name: "s1", X: proc.EStr{V: "abc"}}, proc.SSet{Name: "n1", X: proc.ENum{V: 7}}, proc.SSet{Name: "b1", X: proc.EBool{V: true}},
 		proc.SSet{Name: "s2", X: proc.EStr{V: ""}}, proc.SSet{Name: "n2", X: proc.ENum{V: 0}},
 	}
-	ctxs := []string{"transform-return", "predicate-return", "if-condition", "set", "debug", "predicate-return-shadowed", "predicate-return-on-empty-match", "debug-on-empty-match", "predicate-return-behind-no-pattern"}
+	ctxs := []string{"transform-return", "predicate-return", "if-condition", "set", "debug", "predicate-return-shadowed", "predicate-return-on-empty-match", "debug-on-empty-match", "predicate-return-behind-no-pattern", "transform-return-nested-in-set-to-matches", "predicate-return-nested-twice-in-set-to-matches"}
 	r.Extra["exhaustive_expressions"] = len(exprs)
 	r.Exec(len(exprs)*len(ctxs), drv.ExecOpts{Batch: 1500}, func(i int) *drv.Item {
 		e := exprs[i/len(ctxs)]
@@ -230,6 +239,12 @@ func C12(r *drv.Run) {
 			ss = append(ss, proc.SReturn{X: e})
 		case "predicate-return-behind-no-pattern":
 			cs.noPat = true
+			ss = append(ss, proc.SReturn{X: e})
+		case "transform-return-nested-in-set-to-matches":
+			cs.transform, cs.nest = true, 1
+			ss = append(ss, proc.SReturn{X: e})
+		case "predicate-return-nested-twice-in-set-to-matches":
+			cs.nest = 2
 			ss = append(ss, proc.SReturn{X: e})
 		case "debug-on-empty-match":
 			// (a predicate must return a boolean; the expression of any type is evaluated by a debug statement)
